@@ -10,11 +10,12 @@ def sh(cmd, cwd, timeout=1200):
     return p.returncode, (p.stdout + p.stderr)
 for pid in sorted(props):
     if only and pid not in only: continue
-    wt = "/tmp/seedconf/%s" % pid
+    wt = "%s/%s" % (os.environ.get("SEED_ROOT", "/tmp/seedconf"), pid)
+    off = int(os.environ.get("SEED_OFFSET", "0"))  # round 2: SEED_ROOT=/tmp/seed2 SEED_OFFSET=2 -> m3, m4
     for n in (1, 2):
         patch = "%s/_seed/patch%d.diff" % (wt, n); demo = "%s/_seed/demo%d.py" % (wt, n)
         if not (os.path.exists(patch) and os.path.exists(demo)): continue
-        sid = "%s_m%d" % (pid, n)
+        sid = "%s_m%d" % (pid, n + off)
         sh("git checkout -q -- flumine", wt)
         rc0, o0 = sh("%s _seed/demo%d.py" % (PY, n), wt)
         rca, oa = sh("git apply _seed/patch%d.diff" % n, wt)
